@@ -1,28 +1,19 @@
 /- REGENERATED from /repo on every run by /verif/harness/cmd/extract — do not edit. -/
 namespace Ibx.Gen.SanFilter
 
-/-- imports of html.go, sorted (`html` must be golang.org/x/net/html, whose EscapeString escapes six bytes) -/
-def htmlImports : List String := ["bufio", "bytes", "github.com/microcosm-cc/bluemonday", "golang.org/x/net/html", "io", "regexp", "strings"]
+/-- semantic summary of sanitize.HTML (html.go), unexported helpers inlined: the token loop L1, the attribute loop L2, then the policy; <sanitizeStyle> is the function of cssSem -/
+def filterSem : List String := ["ret(L1) == nil => loop L1(); <membuf>.String(); o5.Sanitize(#String) -> return (#Sanitize, nil)", "ret(L1) != nil => loop L1() -> return (\"\", ret(L1))", "L1: ##Next == html.ErrorToken && ##Err == io.EOF => o6.Next(); o6.Err(); o7.Flush() -> return ##Flush", "L1: ##Next == html.ErrorToken && ##Err != io.EOF => o6.Next(); o6.Err() -> return ##Err", "L1: ##Next == html.SelfClosingTagToken && ##TagName.1 && ##Write.1 == nil => o6.Next(); o6.TagName(); loop L2(@@1 = \"<\" ++ ##TagName.0); o7.Write(L2.@@1 ++ \"/>\") -> next", "L1: ##Next == html.SelfClosingTagToken && ##TagName.1 && ##Write.1 != nil => o6.Next(); o6.TagName(); loop L2(@@1 = \"<\" ++ ##TagName.0); o7.Write(L2.@@1 ++ \"/>\") -> return ##Write.1", "L1: ##Next == html.SelfClosingTagToken && !##TagName.1 && ##Write.1 == nil => o6.Next(); o6.TagName(); o6.Raw(); o7.Write(##Raw) -> next", "L1: ##Next == html.SelfClosingTagToken && !##TagName.1 && ##Write.1 != nil => o6.Next(); o6.TagName(); o6.Raw(); o7.Write(##Raw) -> return ##Write.1", "L1: ##Next == html.StartTagToken && ##TagName.1 && ##Write.1 == nil => o6.Next(); o6.TagName(); loop L2(@@1 = \"<\" ++ ##TagName.0); o7.Write(L2.@@1 ++ \">\") -> next", "L1: ##Next == html.StartTagToken && ##TagName.1 && ##Write.1 != nil => o6.Next(); o6.TagName(); loop L2(@@1 = \"<\" ++ ##TagName.0); o7.Write(L2.@@1 ++ \">\") -> return ##Write.1", "L1: ##Next == html.StartTagToken && !##TagName.1 && ##Write.1 == nil => o6.Next(); o6.TagName(); o6.Raw(); o7.Write(##Raw) -> next", "L1: ##Next == html.StartTagToken && !##TagName.1 && ##Write.1 != nil => o6.Next(); o6.TagName(); o6.Raw(); o7.Write(##Raw) -> return ##Write.1", "L1: ##Next notin {html.ErrorToken, html.SelfClosingTagToken, html.StartTagToken} && ##Write.1 == nil => o6.Next(); o6.Raw(); o7.Write(##Raw) -> next", "L1: ##Next notin {html.ErrorToken, html.SelfClosingTagToken, html.StartTagToken} && ##Write.1 != nil => o6.Next(); o6.Raw(); o7.Write(##Raw) -> return ##Write.1", "L2: ###TagAttr.2 && <sanitizeStyle>(###TagAttr.1) == \"\" && strings.ToLower(###TagAttr.0) == \"style\" => o6.TagAttr() -> next", "L2: ###TagAttr.2 && <sanitizeStyle>(###TagAttr.1) == \"\" && strings.ToLower(###TagAttr.0) != \"style\" => o6.TagAttr(); @@1 := @@1 ++ \" \" ++ ###TagAttr.0 ++ \"=\\\"\" ++ html.EscapeString(###TagAttr.1) ++ \"\\\"\" -> next", "L2: ###TagAttr.2 && <sanitizeStyle>(###TagAttr.1) != \"\" && strings.ToLower(###TagAttr.0) == \"style\" => o6.TagAttr(); @@1 := @@1 ++ \" \" ++ ###TagAttr.0 ++ \"=\\\"\" ++ html.EscapeString(<sanitizeStyle>(###TagAttr.1)) ++ \"\\\"\" -> next", "L2: ###TagAttr.2 && <sanitizeStyle>(###TagAttr.1) != \"\" && strings.ToLower(###TagAttr.0) != \"style\" => o6.TagAttr(); @@1 := @@1 ++ \" \" ++ ###TagAttr.0 ++ \"=\\\"\" ++ html.EscapeString(###TagAttr.1) ++ \"\\\"\" -> next", "L2: !###TagAttr.2 && <sanitizeStyle>(###TagAttr.1) == \"\" && strings.ToLower(###TagAttr.0) == \"style\" => o6.TagAttr() -> exit", "L2: !###TagAttr.2 && <sanitizeStyle>(###TagAttr.1) == \"\" && strings.ToLower(###TagAttr.0) != \"style\" => o6.TagAttr(); @@1 := @@1 ++ \" \" ++ ###TagAttr.0 ++ \"=\\\"\" ++ html.EscapeString(###TagAttr.1) ++ \"\\\"\" -> exit", "L2: !###TagAttr.2 && <sanitizeStyle>(###TagAttr.1) != \"\" && strings.ToLower(###TagAttr.0) == \"style\" => o6.TagAttr(); @@1 := @@1 ++ \" \" ++ ###TagAttr.0 ++ \"=\\\"\" ++ html.EscapeString(<sanitizeStyle>(###TagAttr.1)) ++ \"\\\"\" -> exit", "L2: !###TagAttr.2 && <sanitizeStyle>(###TagAttr.1) != \"\" && strings.ToLower(###TagAttr.0) != \"style\" => o6.TagAttr(); @@1 := @@1 ++ \" \" ++ ###TagAttr.0 ++ \"=\\\"\" ++ html.EscapeString(###TagAttr.1) ++ \"\\\"\" -> exit", "o1 = bluemonday.UGCPolicy()", "o2 = o1.AllowElements(\"center\")", "o3 = o2.AllowAttrs(\"style\")", "o4 = o3.Matching(regexp.MustCompile(\".*\"))", "o5 = o4.Globally()", "o6 = html.NewTokenizer(strings.NewReader($1))", "o7 = bufio.NewWriter(<membuf>)", "import bluemonday = github.com/microcosm-cc/bluemonday", "import bufio = bufio", "import html = golang.org/x/net/html", "import io = io", "import regexp = regexp", "import strings = strings"]
 
-/-- every html.NewTokenizer…(…) call of styleTagFilter -/
-def filterTokenizerCtors : List String := ["html.NewTokenizer(r)"]
+/-- the x/net/html tokenizer constructors sanitize.HTML reaches, as importpath.Name/arity -/
+def filterTokenizerCtors : List String := ["golang.org/x/net/html.NewTokenizer/1"]
 
-/-- methods called on the tokenizer `z` in styleTagFilter, sorted (an option setter — AllowCDATA, NextIsNotRawText, SetMaxBuf — would appear here) -/
+/-- methods called on a tokenizer so constructed, anywhere under sanitize.HTML, sorted (an option setter — AllowCDATA, NextIsNotRawText, SetMaxBuf — would appear here) -/
 def filterTokenizerMethods : List String := ["Err", "Next", "Raw", "TagAttr", "TagName"]
 
-/-- case lists of `switch tt` in styleTagFilter, in source order -/
-def filterCases : List String := ["html.ErrorToken", "html.StartTagToken,html.SelfClosingTagToken", "default"]
+/-- every x/net/html NewTokenizer… call of bluemonday's sanitize.go, as importpath.Name/arity -/
+def policyTokenizerCtors : List String := ["golang.org/x/net/html.NewTokenizer/1"]
 
-/-- body of styleTagFilter, printed with single spaces -/
-def filterSrc : String := "{ bw := bufio.NewWriter(w) b := make([]byte, 0, 256) z := html.NewTokenizer(r) for { b = b[:0] tt := z.Next() switch tt { case html.ErrorToken: err := z.Err() if err == io.EOF { return bw.Flush() } return err case html.StartTagToken, html.SelfClosingTagToken: name, hasAttr := z.TagName() if !hasAttr { if _, err := bw.Write(z.Raw()); err != nil { return err } continue } b = append(b, '<') b = append(b, name...) for { key, val, more := z.TagAttr() strval := string(val) style := false if strings.ToLower(string(key)) == \"style\" { style = true strval = sanitizeStyle(strval) } if !style || strval != \"\" { b = append(b, ' ') b = append(b, key...) b = append(b, '=', '\"') b = append(b, []byte(html.EscapeString(strval))...) b = append(b, '\"') } if !more { break } } if tt == html.SelfClosingTagToken { b = append(b, '/') } if _, err := bw.Write(append(b, '>')); err != nil { return err } default: if _, err := bw.Write(z.Raw()); err != nil { return err } } } }"
-
-/-- results of the return statements of sanitizeStyleTags -/
-def sanitizeStyleTagsReturns : List String := ["\"\",err", "b.String(),nil"]
-
-/-- every html.NewTokenizer…(…) call of bluemonday's sanitize.go -/
-def policyTokenizerCtors : List String := ["html.NewTokenizer(r)"]
-
-/-- methods called on `tokenizer` in the bluemonday function(s) constructing one, sorted -/
+/-- methods called in bluemonday's sanitize.go on a variable defined by such a call, sorted -/
 def policyTokenizerMethods : List String := ["Err", "Next", "Token"]
 
 /-- version of golang.org/x/net selected by the repository's go.mod -/
@@ -34,7 +25,7 @@ def tokenizerMethods : List String := ["AllowCDATA", "Buffered", "Err", "Next", 
 /-- exported functions of token.go returning *Tokenizer, sorted -/
 def tokenizerCtors : List String := ["NewTokenizer", "NewTokenizerFragment"]
 
-/-- arguments of z.startTagIn in readStartTag: the elements whose content the tokenizer reads as raw text, sorted -/
+/-- arguments of the startTagIn calls in readStartTag: the elements whose content the tokenizer reads as raw text, sorted -/
 def tokenizerRawTags : List String := ["iframe", "noembed", "noframes", "noscript", "plaintext", "script", "style", "textarea", "title", "xmp"]
 
 /-- the constant escapedChars of x/net/html escape.go, as bytes -/
